@@ -122,6 +122,28 @@ def check_ops(inp):
                 c = obs.clone(o, op[1])
                 if c is not None:
                     o = c               # the sequence goes on with the copy: it is the same value
+            elif kind == "respelled":
+                # an EQUAL object written differently (fields reversed, Not Defined optionals toggled) is used in between
+                prefix, m = ref.parse(ver, s)
+                V = spec.VERS[ver]
+                d2 = dict(m)
+                for k in V.optional:
+                    if d2.get(k, V.nd) == V.nd:
+                        if k in d2:
+                            del d2[k]
+                        elif (len(k) + len(s)) % 2:
+                            d2[k] = V.nd
+                y = C(ref.build(prefix, d2, [k for k in reversed(V.order) if k in d2]))
+                for name in sorted(A):
+                    A[name](y)
+            elif kind == "others":
+                # n other objects of the version are created and used in between (whatever is memoised with a bound gets evicted)
+                import random
+                rng = random.Random(op[2])
+                for _ in range(op[1]):
+                    z = C(gen.rng_vector(rng, ver))
+                    for name in ("hash", "clean_vector", "json", "json_sort_minimal", "scores"):
+                        A[name](z)
             elif kind == "compare_foreign":
                 x = foreign(op[1], ver, s, o)
                 r = [bool(o == x), bool(o != x), bool(x == o), bool(x != o)]
@@ -181,6 +203,29 @@ def check_shared(inp):
 
 
 CHECKS = {"ops": check_ops, "shared": check_shared}
+
+
+def others_part(shard, n, seed):
+    """accessor calls, then an equal object in another spelling and 0 / 140 / 300 / 1100 other objects in between, then the calls again"""
+    import random
+    part = runner.Part(PID)
+    rng = random.Random(runner.mix(seed, 181, shard))
+    for i in range(n):
+        ver = spec.VKEYS[(i + shard) % 3]
+        names = sorted(accessors(ver))
+        s = gen.rng_vector(rng, ver, p_opt=0.5)
+        ops = [["call", rng.choice(names)] for _ in range(rng.randrange(0, 4))]
+        ops.append(["respelled"])
+        k = (0, 140, 300, 1100)[(i // 3 + shard) % 4]
+        if k:
+            ops.append(["others", k, rng.randrange(1 << 20)])
+            if rng.random() < 0.5:
+                ops.append(["respelled"])
+        ops += [["call", nm] for nm in rng.sample(names, min(4, len(names)))]
+        inp = {"ver": ver, "s": s, "ops": ops}
+        part.count(inp, nontrivial=True, classes=("other-objects-in-between", "others=%d" % k))
+        part.check("ops", check_ops, inp)
+    return part
 
 
 def shared_part(n_examples, shard):
@@ -360,13 +405,15 @@ def run(tier, t0):
     else:
         part = runner.hyp_shards("vf.props.c18", "hyp_part", 32000, args=(50,))
         part.merge(runner.hyp_shards("vf.props.c18", "shared_part", 64000))
+    for p in runner.parallel("vf.props.c18", "others_part", [(sh, 12 if tier == "quick" else 200, runner.SEED) for sh in range(runner.NPROC)]):
+        part.merge(p)
     rule = ("one accepted vector per case (any version, any spelling) and a generated sequence of operations: each public "
             "accessor (scores, severities, clean_vector in both modes, rh_vector, sub-vectors, as_json with each option pair, "
             "hash), ==/hash against a twin, and mutation of a freshly returned as_json() dict (clear / overwrite / add / pop / "
             "overwrite vectorString and baseScore). non-trivial = sequence of >= 3 steps that repeats an accessor after a "
             "different one or after a dict mutation; distinct by hash of (vector, sequence). Second generator: ONE object "
             "shared by 2-4 threads that call accessor lists under a drawn line-level schedule (vf.sched); non-trivial = >= 3 "
-            "forced thread switches")
+            "forced thread switches. Third: accessor calls, an equal object in another spelling and 0-1100 other objects used in between, the calls again")
     return runner.finish(part, tier, t0, rule,
                          ["only observable results are compared (vars(obj) is not: benign memoisation must not alarm)"],
-                         required=("v2", "v3", "v4", "mutated", "len>=10", "compared-with-foreign-type", "continued-with-a-copy", "shared-object", "shared:switches>=3"))
+                         required=("v2", "v3", "v4", "mutated", "len>=10", "compared-with-foreign-type", "continued-with-a-copy", "shared-object", "shared:switches>=3", "other-objects-in-between", "others=1100"))
